@@ -196,6 +196,7 @@ class MessageType(IntEnum):
 COMMAND_MESSAGES = {
     MessageType.MESSAGE_REQUEST,
     MessageType.RESET_REQUEST,
+    MessageType.STARTUP_REQUEST,
     MessageType.SHUTDOWN_REQUEST,
     MessageType.FAULT_CONTROL,
     MessageType.SET_CONFIG,
@@ -205,6 +206,7 @@ COMMAND_MESSAGES = {
     MessageType.EXPORT_DATA,
     MessageType.SET_MESSAGE_RATE,
     MessageType.GET_MESSAGE_RATE,
+    MessageType.STA5635_COMMAND,
 }
 
 
@@ -216,6 +218,7 @@ RESPONSE_MESSAGES = {
     MessageType.COMMAND_RESPONSE,
     MessageType.CONFIG_RESPONSE,
     MessageType.MESSAGE_RATE_RESPONSE,
+    MessageType.STA5635_COMMAND_RESPONSE,
 }
 
 
